@@ -60,6 +60,8 @@ static void os_join_hook(void);
 #define os_join_hook() ((void) 0)
 #endif
 
+static pthread_t G_os_self = (pthread_t) 77;
+pthread_t pthread_self(void) { return G_os_self; }
 int pthread_create(pthread_t *t, const pthread_attr_t *a, void *(*fn)(void *), void *arg)
 {
 	(void) a; (void) fn; (void) arg;
